@@ -754,3 +754,37 @@ Proof.
     assert (Hin : In r (candidates (run_threads [r0] h))) by (rewrite E; left; reflexivity).
     apply candidates_sound in Hin as [[<-|[]] Hcm]. apply cm_compile. exact Hcm.
 Qed.
+
+(* ================================================================== "every other request is answered 403" *)
+(* with the filter on, a request whose single authority matches no configured entry is refused with 403 *)
+Lemma decide_no_match_403 sel al q a :
+  valid_sel sel -> authority_of q = Some a ->
+  (forall e, In e al -> ~ entry_matches e a) ->
+  decide_with sel (Some al) q = Reject403.
+Proof.
+  intros Hsel Ha Hno. destruct (decide_with sel (Some al) q) eqn:E; [|reflexivity|].
+  - destruct (decide_sound sel al q Hsel E) as [a' [e [Ha' [He Hm]]]].
+    rewrite Ha in Ha'. inversion Ha'; subst a'. exfalso. exact (Hno e He Hm).
+  - apply decide_400_iff in E. rewrite Ha in E. discriminate E.
+Qed.
+
+(* the three answers partition the requests: filter on, the decision is a function of (authority, recognised) only *)
+Lemma decide_trichotomy sel al q :
+  valid_sel sel ->
+  (decide_with sel (Some al) q = Reject400 /\ authority_of q = None)
+  \/ (decide_with sel (Some al) q = Reject403 /\ exists a, authority_of q = Some a)
+  \/ (decide_with sel (Some al) q = Forward /\ exists a e, authority_of q = Some a /\ In e al /\ entry_matches e a).
+Proof.
+  intro Hsel. destruct (decide_with sel (Some al) q) eqn:E.
+  - right. right. split; [reflexivity|]. exact (decide_sound sel al q Hsel E).
+  - right. left. split; [reflexivity|]. destruct (authority_of q) as [a|] eqn:Ha; [exists a; reflexivity|].
+    rewrite (proj2 (decide_400_iff sel (Some al) q) Ha) in E. discriminate E.
+  - left. split; [reflexivity|]. apply decide_400_iff in E. exact E.
+Qed.
+
+(* filter switched off (HostFilterLayer::disable): everything with a single authority is passed on *)
+Lemma decide_disabled sel q : decide_with sel None q = Forward <-> authority_of q <> None.
+Proof.
+  unfold decide_with. destruct (authority_of q) as [a|]; split; intro H; try reflexivity; try discriminate.
+  contradiction H; reflexivity.
+Qed.
